@@ -15,6 +15,7 @@ import X86Model.Driver.Tlb
 import X86Model.Driver.Recursive
 import X86Model.Driver.Idt
 import X86Model.Driver.GeneralHandler
+import X86Model.Driver.Src
 
 open X86 X86.Driver
 
@@ -26,7 +27,12 @@ def statelessHandlers : List Handler := [handleC03, handleC04, handleC05, handle
 
 def dispatch : SHandler DState := fun cfg op a impl st =>
   match statelessHandlers.firstM (fun h => h cfg op a impl) with
-  | some v => some (v, st)
+  | some v =>
+    -- third voice: the definitions generated from the Rust source (translator/gen_fns.py) on the same line;
+    -- a difference from the implementation is reported as a disagreement whose model output starts with `src`
+    match srcOut cfg op a with
+    | some t => if t != impl && v.model == impl then some ({ v with model := "src" :: t }, st) else some (v, st)
+    | none => some (v, st)
   | none =>
     match handleMapper cfg op a impl st.mapper with
     | some (v, m) => some (v, { st with mapper := m })
